@@ -42,14 +42,9 @@ Proof.
   - discriminate.
 Qed.
 
-Lemma tuple_outs_length B k its : forall l,
-  length ((fix go (its' : list elem) (xs : list json) {struct its'} : list (unit * outcome) :=
-             match its' with
-             | ie :: ir => match xs with [] => [] | x :: xr => (tt, B ie (Some x)) :: go ir xr end
-             | [] => map (fun x => (tt, on_addl (fun e' => B e' (Some x)) (k_additionalItems k) (Ok (build_any x)) Rej)) xs
-             end) its l) = length l.
+Lemma tuple_outs_length B rest its : forall l, length (tuple_outs B rest its l) = length l.
 Proof.
-  induction its as [|ie ir IH]; intros l; [now rewrite map_length|].
+  induction its as [|ie ir IH]; intros l; [simpl; now rewrite map_length|].
   destruct l as [|x xr]; simpl; [reflexivity|]. now rewrite IH.
 Qed.
 
